@@ -702,6 +702,8 @@ def call_extern(I, fn, args, kwargs):
         I.ctx.ghost.setdefault("times", []).append(t)
         return t
     if p == "asyncio.sleep":
+        if I.ctx.ghost.get("on_suspend"):
+            I.ctx.ghost["on_suspend"](I, "sleep")  # a suspension point in rely / guarantee mode
         return None
     if p in ("math.isfinite", "math.isnan"):
         v = args[0]
